@@ -9,6 +9,7 @@ import (
 	"verif/harness/cachex"
 	"verif/harness/clockx"
 	"verif/harness/crashx"
+	"verif/harness/fidx"
 	"verif/harness/forge"
 	"verif/harness/hostilex"
 	"verif/harness/identx"
@@ -24,6 +25,8 @@ import (
 var commands = map[string]func(args []string){}
 
 func init() {
+	commands["fidelity"] = fidx.Run
+	commands["fidelity-worker"] = fidx.Worker
 	commands["page"] = page.Run
 	commands["cache"] = cachex.Run
 	commands["cache-worker"] = cachex.Worker
